@@ -43,6 +43,8 @@ func TestMessageAfterInvalidOne(t *testing.T) {
 		{ref.OpText, [][]byte{[]byte("h\xc3"), []byte("\xa9llo \xe2\x82\xac")}},
 		{ref.OpText, [][]byte{[]byte("bad\x80")}},
 		{ref.OpBinary, [][]byte{{}, {0x80}}},
+		{ref.OpPing, [][]byte{[]byte("ping \xff payload")}}, // a control frame between messages is not text either
+		{ref.OpPong, [][]byte{{}}},
 	}
 	build := func(m msg, masked bool, salt int) []ref.Frame {
 		var fs []ref.Frame
@@ -68,6 +70,9 @@ func TestMessageAfterInvalidOne(t *testing.T) {
 		buf := make([]byte, 5)
 		for idle := 0; idle < 64; {
 			n, err := rd.Read(buf)
+			if n < 0 || n > len(buf) {
+				return h.OpCode, out, fmt.Errorf("Read returned n=%d for a %d-byte buffer (err=%v)", n, len(buf), err)
+			}
 			out = append(out, buf[:n]...)
 			if err == io.EOF {
 				return h.OpCode, out, nil
@@ -125,5 +130,5 @@ func TestMessageAfterInvalidOne(t *testing.T) {
 		}
 	}
 	hx.EvalN(n)
-	hx.Part("message after an invalid text message: 7 invalid x 5 follow-ups x masked x chunk{all,1,3} x {Discard, NextFrame when fully received}", int64(n), true)
+	hx.Part("message after an invalid text message: 7 invalid x 7 follow-ups (data and control) x masked x chunk{all,1,3} x {Discard, NextFrame when fully received}", int64(n), true)
 }
